@@ -6,8 +6,8 @@
     hcount, charge and equal bond maps;  [amap_id] = atom_map is the node id;  orders are half-units. *)
 From Coq Require Import String.
 From Coq Require Import List NArith ZArith Bool.
-From SK Require Import lib.LGraph lib.C01_GraphLemmas model.C01_Model model.C02_Model model.C01_Opts model.C01_String model.C01_Renum model.C01_Attrs model.C01_CleanWc model.C01_Rsmi model.C01_Nbrs model.C01_Rewrite model.C01_Conv model.C01_G2M model.C01_DecRaw model.C01_HBal
-  proof.C01_Proof proof.C01_OptsProof proof.C01_StringProof proof.C01_StringHyd proof.C01_StringPipe proof.C01_StringEH proof.C01_StringRenum proof.C01_StringHydExt proof.C01_RenumCentre proof.C01_RenumWrite proof.C01_StringEHwf proof.C01_AttrsProof proof.C01_StringPipeH proof.C01_CleanWcProof proof.C01_RsmiProof proof.C01_NbrsProof proof.C01_RewriteProof proof.C01_ConvProof proof.C01_G2MProof proof.C01_WriteExt proof.C01_RewriteCheck proof.C01_DecRawProof proof.C01_HBalProof proof.C01_HBalString proof.C01_HBalEH.
+From SK Require Import lib.LGraph lib.C01_GraphLemmas model.C01_Model model.C02_Model model.C01_Opts model.C01_String model.C01_Renum model.C01_Attrs model.C01_CleanWc model.C01_Rsmi model.C01_Nbrs model.C01_Rewrite model.C01_Conv model.C01_G2M model.C01_DecRaw model.C01_HBal model.C01_M2GIdx model.C01_Prem
+  proof.C01_Proof proof.C01_OptsProof proof.C01_StringProof proof.C01_StringHyd proof.C01_StringPipe proof.C01_StringEH proof.C01_StringRenum proof.C01_StringHydExt proof.C01_RenumCentre proof.C01_RenumWrite proof.C01_StringEHwf proof.C01_AttrsProof proof.C01_StringPipeH proof.C01_CleanWcProof proof.C01_RsmiProof proof.C01_NbrsProof proof.C01_RewriteProof proof.C01_ConvProof proof.C01_G2MProof proof.C01_WriteExt proof.C01_RewriteCheck proof.C01_DecRawProof proof.C01_HBalProof proof.C01_HBalString proof.C01_HBalEH proof.C01_M2GIndex proof.C01_ReadWrite proof.C01_HBalW proof.C01_PremProof proof.C01_Capstone.
 Import ListNotations.
 Local Open Scope Z_scope.
 
@@ -739,3 +739,77 @@ Theorem C01_h_to_explicit_balance : forall I : its, wf I ->
      h_total (snd (its_decompose (fst (h_to_explicit_its I)))) = h_total (snd (its_decompose I))).
 Proof. exact h_to_explicit_balance. Qed.
 Print Assumptions C01_h_to_explicit_balance.
+
+(** 47. MolToGraph.transform with its DEFAULT flags (drop_non_aam=False, use_index_as_atom_map=False - also the defaults of
+        smiles_to_graph): no hypothesis on the atom maps is needed; if no two bonds join the same pair of atoms, the result is
+        EXACTLY every atom keyed by index + 1 in atom order (labels of the atom, atom_map = its map number, 0 when unmapped) and
+        every bond between existing atoms keyed the same way, in bond order (compare theorem 11 for the flags of rsmi_to_graph) *)
+Theorem C01_mol_to_graph_index : forall m : rmol,
+  (simple (index_bonds m) -> mol_to_graph false false m = Some (index_graph m)) /\
+  (forall i a, nth_error (rm_atoms m) i = Some a -> label (index_graph m) (N.of_nat i + 1) = Some (atom_node a)).
+Proof. intros m. exact (conj (mol_to_graph_index m) (index_graph_label m)). Qed.
+Print Assumptions C01_mol_to_graph_index.
+
+(** 48. GraphToMol after MolToGraph with nothing in between: for a molecule with distinct maps on its mapped atoms and at most
+        one bond per pair, the RWMol content GraphToMol builds from the graph MolToGraph made of it is that molecule's mapped
+        part: its mapped atoms in atom order with (element, charge, atom map, total H as the explicit count) and one bond per
+        bond between mapped atoms, in bond order, joining the same two atoms with the type of its order.  (Aromatic flags and
+        'neighbors' are not handed on.)  This reduces the RDKit contract R1 to a statement about RDKit alone. *)
+Theorem C01_read_write_content : forall m : rmol,
+  (NoDup (map fst (mapped_nodes m)) /\ simple (mapped_bonds m)) -> (forall u v o, In (u, v, o) (mapped_bonds m) -> u <> v) ->
+  exists w, graph_to_wmol (graph_of m) = Some w /\
+    fst w = map (fun a => WA (ra_el a) (ra_ch a) (Z.of_N (ra_map a)) (ra_hs a)) (filter is_mapped (rm_atoms m)) /\
+    length (snd w) = length (mapped_bonds m) /\
+    forall k u v o, nth_error (mapped_bonds m) k = Some (u, v, o) ->
+      exists i j a b, nth_error (snd w) k = Some (i, j, bond_code o) /\
+        nth_error (filter is_mapped (rm_atoms m)) i = Some a /\ ra_map a = u /\
+        nth_error (filter is_mapped (rm_atoms m)) j = Some b /\ ra_map b = v.
+Proof. exact read_write_content. Qed.
+Print Assumptions C01_read_write_content.
+
+(** 49. ... and the RWMol content GraphToMol hands to RDKit stands for as many hydrogens (hydrogen atoms + explicit H counts) as
+        the graph it was built from; for the two RWMols of its_to_rsmi: as many as the decomposed sides of the ITS *)
+Theorem C01_rwmol_hydrogen_total :
+  (forall (g : mgraph) w, wf g -> graph_to_wmol g = Some w ->
+     sumZ (fun a => if N.eqb (w_el a) EL_H then 1 else w_hs a) (fst w) = h_total g) /\
+  (forall (I : its) wr wp, wf I -> its_to_wmols I = Some (wr, wp) ->
+     (one_parent (fst (its_decompose I)) ->
+        sumZ (fun a => if N.eqb (w_el a) EL_H then 1 else w_hs a) (fst wr) = h_total (fst (its_decompose I))) /\
+     (one_parent (snd (its_decompose I)) ->
+        sumZ (fun a => if N.eqb (w_el a) EL_H then 1 else w_hs a) (fst wp) = h_total (snd (its_decompose I)))).
+Proof. exact (conj wmol_total its_to_wmols_total). Qed.
+Print Assumptions C01_rwmol_hydrogen_total.
+
+(** 50. the executable test the correspondence evaluates on what RDKit reads from the two sides of every corpus reaction, its
+        re-rootings and the hand-made reactions (kind str-prem) is sound for ALL reaction-side hypotheses of the string theorems
+        15, 18, 27, 32, 33, 45: whenever it evaluates to true, both readings have distinct maps and simple bonds, both molecule
+        graphs are well formed, carry the same atom-map set and positive orders, and no hydrogen bridges two other atoms *)
+Theorem C01_reaction_test_sound : forall mr mp : rmol, reaction_okb mr mp = true ->
+  (NoDup (map fst (mapped_nodes mr)) /\ simple (mapped_bonds mr)) /\ (NoDup (map fst (mapped_nodes mp)) /\ simple (mapped_bonds mp)) /\
+  wf (graph_of mr) /\ wf (graph_of mp) /\ same_nodes (graph_of mr) (graph_of mp) /\
+  orders_pos (graph_of mr) /\ orders_pos (graph_of mp) /\ one_parent (graph_of mr) /\ one_parent (graph_of mp).
+Proof. exact reaction_okb_sound. Qed.
+Print Assumptions C01_reaction_test_sound.
+
+(** 51. ... and the second test of the same kind is sound for the hypothesis [h_safe] of theorem 46, on both sides of the ITS of
+        the two readings *)
+Theorem C01_eh_test_sound : forall mr mp : rmol, eh_okb mr mp = true ->
+  h_safe i_G (gnodes (its_construct (graph_of mr) (graph_of mp))) /\ h_safe i_H (gnodes (its_construct (graph_of mr) (graph_of mp))).
+Proof. exact eh_okb_sound. Qed.
+Print Assumptions C01_eh_test_sound.
+
+(** 52. capstone: for every pair of RDKit readings that passes the executable test of kind str-prem - computed by the model on
+        every corpus reaction - the conclusions of the graph-level theorems hold of the very values the correspondence compares
+        with the implementation: rsmi_to_its is the ITS of the two molecule graphs, it is well formed, its decomposition
+        returns the two graphs (element, aromaticity, hydrogen count, charge, every bond) with atom_map = node id, the two
+        graphs handed to GraphToMol stand for exactly the hydrogens of the input sides, and both RWMols are built *)
+Theorem C01_capstone : forall mr mp : rmol, reaction_okb mr mp = true ->
+  let G := graph_of mr in let H := graph_of mp in
+  let I := its_construct G H in
+  rsmi_to_its_m mr mp = Some I /\ wf I /\
+  geq_sel (fst (its_decompose I)) G /\ geq_sel (snd (its_decompose I)) H /\
+  amap_id (fst (its_decompose I)) /\ amap_id (snd (its_decompose I)) /\
+  h_total (fst (its_to_graphs I)) = h_total G /\ h_total (snd (its_to_graphs I)) = h_total H /\
+  (exists wr wp, its_to_wmols I = Some (wr, wp)).
+Proof. exact capstone. Qed.
+Print Assumptions C01_capstone.
